@@ -82,6 +82,10 @@ class table_dict:
         return all(v in self.tables and (k == v.full_name or (bool(v.alias) and k == v.alias))
                    for k, v in result.items())
 
+    def ensures_values_are_the_listed_objects(self, result):
+        # identity, not equality (C05): every value is an element of the table list itself
+        return all(any(self.tables[i] is v for i in range(len(self.tables))) for k, v in result.items())
+
 
 # ------------------------------------------------------------------------------------------ add_*
 @contract('pydbml.database:Database.add_sticky_note')
